@@ -683,9 +683,84 @@ class Generator:
             i, v, e = m.group(1), m.group(2), m.group(3)
             return "for %s in 0..%s.len() { let %s = &%s[%s];" % (i, e, v, e, i)
         body = rx7.sub(r7, body)
+        # R10: `for X in &V[A..B] {`  ->  `for X in vitK: verif_slice(&V, A, B) {`  (`A..` -> verif_slice_from(&V, A)).
+        # Verus has no specification for range-indexing a Vec; the unit declares the two helpers, whose `requires`
+        # (the range lies inside the vector) is an obligation at this very place, and whose `ensures` is the sub-sequence.
+        rx10 = re.compile(r"for\s+([A-Za-z_]\w*)\s+in\s+&\s*([A-Za-z_][\w\.]*)\s*\[([^\[\]]*?)\.\.([^\[\]]*?)\]\s*\{")
+        cnt10 = [0]
+        def r10(m):
+            cnt10[0] += 1
+            x, v, lo, hi = m.group(1), m.group(2), m.group(3).strip(), m.group(4).strip()
+            if hi.startswith("="):
+                raise AnchorLost("inclusive range slice (R10)")
+            lo = lo or "0"
+            call = "verif_slice(&%s, %s, %s)" % (v, lo, hi) if hi else "verif_slice_from(&%s, %s)" % (v, lo)
+            rules.append("R10 range slice in a for header: %s" % m.group(0)[:100])
+            return "for %s in vit%d: %s {" % (x, cnt10[0], call)
+        body = rx10.sub(r10, body)
+        body = self._desugar_labelled_continue(body, rules)
         body = self._desugar_break_value(body, rules)
         body = self._desugar_continue(body, rules)
         return body
+
+    def _desugar_labelled_continue(self, body, rules):
+        """R9: `'L: for .. { A; for .. { .. continue 'L; .. } B }`  ->
+               `for .. { A; let mut verif_continue_L = false; for .. { .. { verif_continue_L = true; break; } .. } if !verif_continue_L { B } }`
+        (Verus has no labelled `continue`).  Shape required: exactly one `continue 'L;`, inside a loop that is a direct
+        statement of the body of the loop labelled 'L; `continue 'L` then means: leave the inner loop and skip the rest
+        (B) of the outer body, which is what the flag does.  Anything else is an anchor loss (undecided)."""
+        m = re.search(r"continue\s+'([A-Za-z_]\w*)\s*;", body)
+        if not m:
+            return body
+        lab = m.group(1)
+        if len(re.findall(r"continue\s+'%s\s*;" % lab, body)) != 1 or re.search(r"break\s+'%s\b" % lab, body):
+            raise AnchorLost("labelled continue/break outside the supported shape (R9)")
+        ml = re.search(r"'%s\s*:\s*(?=for\b|while\b|loop\b)" % lab, body)
+        if not ml:
+            raise AnchorLost("label '%s not found on a loop (R9)" % lab)
+        toks = code_tokens(lex(body))
+        pairs = match_brackets(toks)
+        # body block of the labelled loop: first `{` at nesting level 0 after the label
+        k = next(i for i, t in enumerate(toks) if t.start >= ml.end())
+        while toks[k].text != "{":
+            if toks[k].text in ("(", "["):
+                k = pairs[k]
+            k += 1
+        outer_open, outer_close = k, pairs[k]
+        ci = next(i for i, t in enumerate(toks) if t.start >= m.start())
+        if not (outer_open < ci < outer_close):
+            raise AnchorLost("`continue '%s` is not inside the loop it names (R9)" % lab)
+        # the direct child statement of the outer body that contains the continue must be a loop
+        stmt_start, inner_open = outer_open + 1, None
+        i = outer_open + 1
+        while i < ci:
+            t = toks[i].text
+            if t in ("{", "(", "["):
+                if pairs[i] > ci:
+                    if t != "{":
+                        raise AnchorLost("`continue '%s` inside an expression (R9)" % lab)
+                    inner_open = i
+                    break
+                i = pairs[i] + 1
+                if t == "{":
+                    stmt_start = i
+                continue
+            if t == ";":
+                stmt_start = i + 1
+            i += 1
+        if inner_open is None:
+            raise AnchorLost("`continue '%s` directly in the labelled loop (R9 expects an inner loop)" % lab)
+        kw, kpos = self._block_header_kw(toks, pairs, inner_open)
+        if kw not in ("for", "while", "loop") or kpos < stmt_start:
+            raise AnchorLost("`continue '%s` is not inside an inner loop that is a statement of the labelled loop's body (R9)" % lab)
+        inner_close = pairs[inner_open]
+        flag = "verif_continue_%s" % lab
+        rest = body[toks[inner_close].end:toks[outer_close].start]
+        new = (body[:ml.start()] + body[ml.end():toks[kpos].start] + "let mut %s = false; " % flag
+               + body[toks[kpos].start:m.start()] + "%s = true; break;" % flag + body[m.end():toks[inner_close].end]
+               + " if !%s {" % flag + rest + "} " + body[toks[outer_close].start:])
+        rules.append("R9 labelled continue: `continue '%s` -> flag `%s` + `break`, rest of the outer loop body under `if !%s`" % (lab, flag, flag))
+        return new
 
     def _desugar_break_value(self, body, rules):
         """R8: `let V = loop { .. break E; .. };`  ->  `let V; loop { .. { V = E; break; } .. }`
